@@ -46,9 +46,23 @@ def coq_submit(line):
         vc = "(Some [%s])" % "; ".join(coq_cert(c) for c in certs)
     rl = "[]" if raws == "-" else "[%s]" % "; ".join(cb(x) for x in raws.split(","))
     opt = lambda x: "None" if x == "err" else "(Some %s)" % cb(x)
-    w = {"ok": 0, "full": 1, "evicted": 2, "sunset": 3}.get(wait, 4)
+    w = {"ok": 0, "full": 1, "evicted": 2, "sunset": 3, "issuerfail": 4}.get(wait, 4)   # issuerfail: uploadIssuer failed (WOther)
     t = "(run_submit %s %s %s %s %s %s %s %s (%s)%%Z %d)" % (coq_tbl(keys), cbool(ep == "prechain"), bodylen, cbool(js), rl, vc, opt(tbsn), opt(tbsp), now, w)
     return (t, r)
+
+
+def coq_upissuers(line):
+    """one request of the issuer scenario as a term of Submit/Run.v run_upissuers"""
+    op, a, r = D.split_line(line)
+    if op != "upissuers" or len(line) > 16000:
+        return None
+    cols = [[] if x == "-" else x.split(",") for x in a]
+    if len(set(len(c) for c in cols)) != 1:
+        return None
+    code = {"none": 0, "same": 1}
+    items = "; ".join("(%s, (%s, (%d%%N, (%s, %s))))" % (cb(i), cbool(k), code.get(s, 2), cbool(f), cbool(u))
+                      for i, k, s, f, u in zip(*cols))
+    return ("(run_upissuers %s [%s])" % (coq_tbl(cols[0]), items), r)
 
 
 def coq_roots(lines):
@@ -114,6 +128,12 @@ def main(tier, seed, replay):
         sample = []
         for k in sorted(by):
             sample += rnd.sample(by[k], min(len(by[k]), 3 if tier == "quick" else 12))
+        ups = {}
+        for c in (coq_upissuers(l) for l in mlines):
+            if c:
+                ups.setdefault(c[1].split(":")[0] + str("other" in c[1]), []).append(c)
+        for k in sorted(ups):
+            sample += rnd.sample(ups[k], min(len(ups[k]), 2 if tier == "quick" else 10))
         rc = coq_roots([l for l in mlines if l.startswith(("loadroots", "setroots"))])
         if rc:
             sample.append(rc)
@@ -124,27 +144,34 @@ def main(tier, seed, replay):
     elif not ok:
         print("# note: the Coq proof stage also failed: %s" % getattr(res, "coq_failure", "?"))
     subs = [l for l in work if l.startswith("submit|")]
-    steps = [l for l in work if l.startswith(("submit|", "setroots|", "loadroots|"))]
-    nontrivial = len(set(l for l in subs if "|none|" not in l)) + len(set(l for l in work if l.startswith(("setroots", "loadroots"))))
+    steps = [l for l in work if l.startswith(("submit|", "setroots|", "loadroots|", "upissuers|"))]
+    nontrivial = len(set(l for l in subs if "|none|" not in l)) + len(set(l for l in work if l.startswith(("setroots", "loadroots", "upissuers"))))
+    faulted = [l for l in subs if "|issuerfail|=>|" in l]
     pick = lambda pred: [l[:300] for l in subs if pred(l)][:1]
     cov.update({
         "evaluations": len(steps) + st.get("monitors", 0), "distinct_nontrivial": nontrivial,
-        "rule": "one evaluation = one harness line (stat lines excluded): a real DER chain (crypto/x509-generated CA hierarchy: accepted/unaccepted/temporarily accepted roots, intermediates, precertificate signing certificates, self-signed special roots) posted to the real add-chain/add-pre-chain handler of a real ctlog.Log with the real sequencer, or a root reload/get-roots step, or a monitor; non-trivial = the validation oracle returned a chain (sunlight's own decision logic was reached) or a root-state step; distinct by harness line",
+        "rule": "one evaluation = one harness line (stat lines excluded): a real DER chain (crypto/x509-generated CA hierarchy: accepted/unaccepted/temporarily accepted roots, intermediates, precertificate signing certificates, self-signed special roots) posted to the real add-chain/add-pre-chain handler of a real ctlog.Log with the real sequencer, or a root reload/get-roots step, or the issuer loop of one request of the issuer scenario (fresh CA hierarchies; the backend fails the first Upload of every issuer/ object, or honours a request context cancelled before the request / at the k-th Fetch / at the k-th Upload of an issuer; the same chain is resubmitted until it is accepted), or a monitor; non-trivial = the validation oracle returned a chain (sunlight's own decision logic was reached) or a root-state step; distinct by harness line",
         "traces_validated_against_impl": max(0, len(steps) - st.get("diffs", 0)), "distinct_cases": len(set(steps)),
         "impl_property_monitors": st.get("monitors", 0), "monitor_failures": st.get("monitor_failures", 0),
         "model_impl_differences": st.get("diffs", 0), "vm_compute_crosschecked": ncross,
         "op_distribution": st.get("ops", {}), "result_distribution": st.get("results", {}),
         "generator_distribution": stats,
+        "issuer_fault_scenario": {"requests": len([l for l in work if l.startswith("upissuers|")]),
+                                  "requests_with_failed_issuer_step": len(faulted),
+                                  "plans": {k.split(":", 1)[1]: v for k, v in stats.items() if k.startswith("issuerfault:")},
+                                  "monitors": "mon_issuer_fault (failed Upload of issuer/<fp> during the request => 5xx, never 200, leaf not pooled), mon_issuer_retry (accepted after resubmission), mon_issuers on every accepted attempt, mon_issuers_all (every fingerprint of every entry of that log names a stored object with that SHA-256)"},
         "samples": pick(lambda l: "|=>|200:" in l and "|chain|" in l) + pick(lambda l: "|=>|200:" in l and "|prechain|" in l)
                    + pick(lambda l: "|=>|400:" in l and "|none|" not in l) + [l[:300] for l in work if l.startswith("setroots")][:1]
+                   + [l[:120] + " ... " + l[l.index("|=>|") - 60:] for l in work if l.startswith("upissuers|") and "|=>|err" in l][:1]
                    + cov.get("theorems", [])[:2],
         "trusted_base": ["Coq 8.16.1 kernel (coqc; vm_compute in Examples and the per-run cross-check)",
                          "extraction (ExtrOcamlBasic only) + ocaml/util.ml, ocaml/sha256.ml (instantiates the sha oracle when the model is run), ocaml/submit.ml",
-                         "Go harness harness/submit (CA hierarchy and chain generators with the standard library's crypto/x509, in-memory Backend/LockBackend, abstract view of parsed certificates, reading the sequenced leaf back from the data tile, metric-label reader) and harness/inject/internal/ctlog/zz_verif.go, zz_verif_submit.go accessors (tag verif)",
+                         "Go harness harness/submit (CA hierarchy and chain generators with the standard library's crypto/x509, in-memory Backend/LockBackend with the opt-in fault modes of the issuer scenario (transient failure of the first Upload of an issuer/ key, ctx-honouring operations, recording of every Fetch/Upload of an issuer/ key), abstract view of parsed certificates, reading the sequenced leaf back from the data tile, metric-label reader) and harness/inject/internal/ctlog/zz_verif.go, zz_verif_submit.go accessors (tag verif)",
                          "ORACLES, modelled by contract only and exercised through the real handler: everything inside ctfe.ValidateChain (x509 parsing, path building, signature checks, NotAfter window, EKU filter), x509.ParseCertificate, x509.BuildPrecertTBS, ctfe.IsPrecertificate, ct.IsPreIssuer, json.Unmarshal of the request, x509util.PEMCertPool.AppendCertsFromPEM, SHA-256",
                          "the oracle answers printed by the harness are obtained by calling the same ct-go functions with the same arguments as http.go (root pool rebuilt from the generator's ground truth); monitors mon_contract/mon_json/mon_pem_oracle compare them with what the generator built",
                          "certificate-transparency-go (MerkleTreeLeafFromRawChain, tls.Marshal, SignatureVerifier) is the independent RFC 6962 implementation of monitors mon_leaf/mon_sct; its precertificate path shares x509.BuildPrecertTBS with sunlight, which is why mon_twin compares the logged TBS with a certificate built by the standard library instead",
                          "model Submit/Model.v is a hand transcription of internal/ctlog/http.go and of SetRootsFromPEM/LoadLog(roots) in ctlog.go, tied by the differential run above",
+                         "model Submit/IssuerModel.v is a hand transcription of the issuer loop of addLeafToPool and of uploadIssuer (ctlog.go), tied by the upissuers lines: cache and store before/after are read through VerifIssuerKnown and the backend, the Fetch/Upload outcomes are the ones the backend recorded during the request, and 'err' is read off the response text 'failed to upload issuer'",
                          "pool admission (rate limit, eviction) is C17's model; here only the status mapping of its outcomes is modelled, with the outcome supplied by the scenario",
                          "repo " + L.repo_rev()],
     })
